@@ -387,3 +387,73 @@ def u_loop(ip: Interp, th: LoopTheory, std: StdRepo):
         ip.require(s, "ready-loop:handles-scheduled-meanwhile-are-not-run-in-this-iteration-but-stay-queued-in-order(they-run-in-a-later-one)", z3.And(q.lo == q0.hi, q.hi >= q0.hi), P)
         for n_, f in th.QJ(s.sh):
             ip.require(s, f"ready-loop:preserves:{n_}", f, P)
+
+
+# ======================================================================================================
+# contextlib.suppress  (pool.py: `with suppress(CancelledError): await ...` in the meta-task wrappers - the interpreter's
+# `with suppress(...)` rule of pyvc (interp.st_With) is the contract verified here from the interpreter's own contextlib.py)
+# ======================================================================================================
+TRUSTED_SUPPRESS = [
+    "the `with` statement: __exit__(type, value, tb) runs exactly once on every exit of the block after __enter__ returned; the exception is swallowed iff __exit__ returns a true value (Python language rule)",
+    "issubclass(C, tuple_of_classes) is true iff C is a subclass of one member (builtin); the exceptions raised inside the pool's `with suppress(...)` blocks are not exception groups",
+]
+
+
+class SuppressTheory(FutTheory):
+    LISTED = z3.Function("issubclass_of_one_of", Ref, Ref, B)
+
+    def initial(self) -> St:
+        st = St()
+        st.me = fresh("me", Ref)
+        st.assume(st.me != NONE)
+        st.sh = {"_exceptions": RefV(fresh("exceptions", Ref))}
+        return st
+
+    def may_set_field(self, st, fr, obj, attr) -> bool:
+        return attr in st.sh
+
+    def call_builtin(self, st, fr, f, pos, kws, rest_kw, node):
+        if f.recv is None and f.name == "issubclass" and len(pos) == 2 and not kws:
+            a, b = self.ip.deref(st, pos[0]), self.ip.deref(st, pos[1])
+            if isinstance(a, RefV) and isinstance(b, RefV):
+                st.trace.append(("issubclass", a.t, b.t))
+                return [(st, BoolV(self.LISTED(a.t, b.t)))]
+            if isinstance(a, RefV) and isinstance(b, BuiltinV) and b.name == "BaseExceptionGroup":
+                return [(st, BoolV(False))]  # stated assumption: not an exception group
+        return super().call_builtin(st, fr, f, pos, kws, rest_kw, node)
+
+
+@std_unit("contextlib.suppress", LOOP_PROPS, lambda: SuppressTheory(), "contextlib", "contextlib", "suppress", ["__init__", "__enter__", "__exit__"], TRUSTED_SUPPRESS)
+def u_suppress(ip: Interp, th: SuppressTheory, std: StdRepo):
+    P = LOOP_PROPS
+    SELF = SelfV("suppress")
+
+    def run(st, name, args):
+        return ip.exec_function(st, std.get("contextlib.suppress." + name), SELF, args)
+
+    # __init__(*exceptions): stores exactly the given classes
+    st = th.initial()
+    given = fresh("given_classes", Ref)
+    for s, v in run(st, "__init__", {"exceptions": RefV(given)}):
+        ip.require(s, "__init__:stores-exactly-the-given-exception-classes", z3.And(z3.BoolVal(not isinstance(v, Exit)), s.sh["_exceptions"].t == given), P)
+    # __enter__: no effect
+    st = th.initial()
+    e0 = st.sh["_exceptions"].t
+    for s, v in run(st, "__enter__", {}):
+        ip.require(s, "__enter__:no-effect,raises-nothing", z3.And(z3.BoolVal(not isinstance(v, Exit)), s.sh["_exceptions"].t == e0), P)
+    # __exit__: truthy exactly for a raised exception whose class is a subclass of a listed class; never raises; no effect
+    st = th.initial()
+    e0 = st.sh["_exceptions"].t
+    exctype = fresh("exctype", Ref)
+    n = 0
+    for s, v in run(st, "__exit__", {"exctype": RefV(exctype), "excinst": RefV(fresh("excinst", Ref)), "exctb": RefV(fresh("exctb", Ref))}):
+        n += 1
+        swallowed = z3.And(exctype != NONE, SuppressTheory.LISTED(exctype, e0))
+        if isinstance(v, Exit):
+            ip.require(s, "__exit__:never-raises(non-group-exceptions)", z3.BoolVal(False), P)
+            continue
+        truthy = v.t if isinstance(v, BoolV) else z3.BoolVal(False) if isinstance(v, NoneV) else None
+        ip.require(s, "__exit__:returns-a-true-value-exactly-when-an-exception-was-raised-and-its-class-is-a-subclass-of-a-listed-class(the-`with suppress`-rule-of-the-verifier)",
+                   truthy == swallowed if truthy is not None else z3.BoolVal(False), P)
+        ip.require(s, "__exit__:the-listed-classes-are-unchanged", s.sh["_exceptions"].t == e0, P)
+    ip.require(st, "__exit__:paths-explored", z3.BoolVal(n >= 3), P)
